@@ -176,6 +176,22 @@ def generate(seed, tier="quick"):
             # the file is USED as a prior-sample library by the sampler in between (a sampler call must leave the
             # file closed and untouched: later appends / rewrites still have to work)
             ops.append({"id": oid, "op": "sample", "path": p, "return_logprobs": rnd.random() < 0.6})
+            if rnd.random() < 0.6:
+                # ... and the sampler's OUTPUT is itself written, later outputs appended to it (outputs of the same
+                # data and prior are compatible tables: appending must give their concatenation)
+                ops[-1]["out"] = "out.hdf5"
+                ops[-1]["out_mode"] = rnd.choice(["write", "append", "append"])
+                ops[-1]["n_prior_frac"] = rnd.choice([None, rnd.random()])
+                if rnd.random() < 0.6:
+                    o2 = dict(ops[-1])
+                    o2["id"] = oid + 3000
+                    o2["out_mode"] = "append"
+                    o2["n_prior_frac"] = rnd.choice([None, rnd.random()])
+                    if rnd.random() < 0.8:
+                        o2["return_logprobs"] = ops[-1]["return_logprobs"]
+                    ops.append(o2)
+                if rnd.random() < 0.5:
+                    ops.append({"id": oid + 2000, "op": "read", "path": "out.hdf5", "via": "name"})
         elif c < 0.70:
             ops.append({"id": oid, "op": "read", "path": p, "via": "h5py" if (not fits and rnd.random() < 0.3) else "name"})
         else:
@@ -283,6 +299,22 @@ def classify(m, t):
     if unspec:
         return "unspecified", unspec[0]
     return "compatible", "compatible"
+
+
+def spec_from_samples(smp):
+    """Table spec + column data of a live JokerSamples (used for sampler OUTPUTS written / appended by the history)."""
+    cols = list(smp.par_names)
+    units = {}
+    data = {}
+    for c in cols:
+        col = smp.tbl[c]
+        units[c] = str(getattr(col, "unit", "") or "")
+        data[c] = np.array(getattr(col, "value", col))
+    dts = {str(v.dtype) for v in data.values()}
+    tr = smp.t_ref
+    spec = {"n": len(smp), "cols": cols, "units": units, "dtype": "f4" if dts == {"float32"} else "f8", "t_ref": None if tr is None else float(tr.tcb.mjd),
+            "poly_trend": smp.poly_trend, "n_offsets": smp.n_offsets, "gen_seed": 0, "from_sampler": True}
+    return spec, data
 
 
 def _sha(path):
@@ -425,8 +457,12 @@ def run(program):
                     tt = Time(58000.0 + np.sort(gg.uniform(0, 200, 5)), format="mjd", scale="tcb")
                     sampler["data"] = tj.RVData(t=tt, rv=gg.normal(0, 5, 5) * uu.km / uu.s, rv_err=np.full(5, 50.0) * uu.km / uu.s)
                     sampler["joker"] = tj.TheJoker(pr, rng=np.random.default_rng(5))
+                smp_out = None
                 try:
-                    sampler["joker"].rejection_sample(sampler["data"], path, return_logprobs=bool(op.get("return_logprobs")), n_batches=1, max_posterior_samples=2)
+                    kw_s = {}
+                    if op.get("n_prior_frac") is not None:
+                        kw_s["n_prior_samples"] = max(1, int(op["n_prior_frac"] * m.n))
+                    smp_out = sampler["joker"].rejection_sample(sampler["data"], path, return_logprobs=bool(op.get("return_logprobs")), n_batches=1, max_posterior_samples=2, **kw_s)
                     outcome = "ok"
                 except Exception as e:  # noqa: BLE001 - the outcome of sampling is not C12's business
                     outcome = type(e).__name__
@@ -434,6 +470,35 @@ def run(program):
                 if _sha(path) != sha0:
                     v.append(Violation(PROPERTY, "C12.file-altered", sig + ":sampler-altered-the-library-file", str(op)))
                 log.add("op-end", kind, None, outcome)
+                if smp_out is not None and op.get("out") and type(smp_out).__name__ == "JokerSamples" and len(smp_out) > 0:
+                    opath = os.path.join(workdir, op["out"])
+                    om = model.get(op["out"])
+                    ospec, odata = spec_from_samples(smp_out)
+                    osha0 = _sha(opath)
+                    mode = op.get("out_mode", "write")
+                    try:
+                        if mode == "write" or not isinstance(om, FileModel):
+                            smp_out.write(opath, overwrite=True)
+                            model[op["out"]] = FileModel(ospec, odata)
+                            probe("sampler_output_written")
+                        else:
+                            cls, var = classify(om, ospec)
+                            smp_out.write(opath, append=True)
+                            if cls == "must":
+                                v.append(Violation(PROPERTY, "C12.incompatible-accepted", "C12:append:hdf5:incompatible-append-accepted:" + var, "sampler output appended although %s differs" % var))
+                                model[op["out"]] = "unknown"
+                            else:
+                                om.append(ospec, odata)
+                                probe("sampler_output_appended")
+                    except Exception as e:  # noqa: BLE001
+                        if isinstance(om, FileModel) and mode != "write" and classify(om, ospec)[0] == "compatible":
+                            v.append(Violation(PROPERTY, "C12.append", "C12:append:hdf5:compatible-append-of-sampler-output-refused:%s" % type(e).__name__,
+                                               "two outputs of rejection_sample for the same data and prior (same columns, units, t_ref, poly_trend, n_offsets) could not be appended: %r" % (e,)))
+                            if _sha(opath) != osha0:
+                                model[op["out"]] = "unknown"
+                        elif _sha(opath) != osha0:
+                            model[op["out"]] = "unknown"
+                    log.add("op-end", "sample-out", None, _sha(opath) != osha0)
                 continue
             if kind == "mutate":
                 ti = op["table"]
